@@ -154,25 +154,58 @@ theorem rhTail_err (s : Streams) (k : Nat) (h : HeadersIn) (i : Bool) (e : PErr)
   all_goals first | (cases hr; exact ⟨_, rfl⟩) | cases hr
 
 /-- **how `Recv::recv_headers` refuses**: a connection error PROTOCOL_ERROR (the frame does not fit the
-    stream's state) or a stream error PROTOCOL_ERROR — nothing else -/
+    stream's state), a stream error PROTOCOL_ERROR, or — a pushed response arriving when the
+    receive-stream limit has been reached meanwhile — a stream error REFUSED_STREAM; nothing else -/
 theorem recvRecvHeaders_refusals (s : Streams) (k : Nat) (h : HeadersIn) (e : PErr)
     (hr : (s.recvRecvHeaders k h).2 = .state e) :
-    e = PErr.libraryGoAway PROTOCOL_ERROR ∨ ∃ i, e = PErr.libraryReset i PROTOCOL_ERROR := by
+    e = PErr.libraryGoAway PROTOCOL_ERROR ∨ (∃ i, e = PErr.libraryReset i PROTOCOL_ERROR) ∨
+    (∃ i, e = PErr.libraryReset i REFUSED_STREAM) := by
   rw [recvRecvHeaders_eq] at hr
   split at hr
   · rename_i st' e' heq
     cases hr
     exact Or.inl (recvOpen_err _ _ _ _ _ heq)
   · rename_i st' i heq
-    have hc := rhCl_err (rhPre s k h st' i) k h
-    generalize rhCl (rhPre s k h st' i) k h = c at hc hr
-    obtain ⟨s2, o⟩ := c
-    cases o with
-    | some e' =>
-      simp only at hr
-      cases hr
-      exact Or.inr (hc e rfl)
-    | none => exact Or.inr (rhTail_err s2 k h i e hr)
+    split at hr
+    · cases hr
+      exact Or.inr (Or.inr ⟨_, rfl⟩)
+    · have hc := rhCl_err (rhPre s k h st' i) k h
+      generalize rhCl (rhPre s k h st' i) k h = c at hc hr
+      obtain ⟨s2, o⟩ := c
+      cases o with
+      | some e' =>
+        simp only at hr
+        cases hr
+        exact Or.inr (Or.inl (hc e rfl))
+      | none => exact Or.inr (Or.inl (rhTail_err s2 k h i e hr))
+
+/-- every refusal of a MALFORMED head is PROTOCOL_ERROR: REFUSED_STREAM only comes from the concurrency
+    limit (`rhRefuse`), before the head is looked at -/
+theorem recvRecvHeaders_refused_stream (s : Streams) (k : Nat) (h : HeadersIn) (i : Nat)
+    (hr : (s.recvRecvHeaders k h).2 = .state (PErr.libraryReset i REFUSED_STREAM)) :
+    ∃ st' ini, (s.stream k).state.recvOpen h.eos h.isInformational = (st', .ok ini) ∧ rhRefuse s k st' ini = true := by
+  rw [recvRecvHeaders_eq] at hr
+  split at hr
+  · rename_i st' e' heq
+    cases hr
+    have := recvOpen_err _ _ _ _ _ heq
+    cases this
+  · rename_i st' ini heq
+    split at hr
+    · rename_i hrf; exact ⟨st', ini, heq, hrf⟩
+    · exfalso
+      have hc := rhCl_err (rhPre s k h st' ini) k h
+      generalize rhCl (rhPre s k h st' ini) k h = c at hc hr
+      obtain ⟨s2, o⟩ := c
+      cases o with
+      | some e' =>
+        simp only at hr
+        cases hr
+        obtain ⟨j, hj⟩ := hc _ rfl
+        cases hj
+      | none =>
+        obtain ⟨j, hj⟩ := rhTail_err s2 k h ini _ hr
+        cases hj
 
 /-- the outcome "connection failed, or `Ok` with the stream failed (if still there)" -/
 def FailsStream (s1 : Streams) (k : Nat) (reason : Reason) (init : Initiator) (r : Streams × Except PErr Unit) : Prop :=
